@@ -55,4 +55,16 @@ pub broadcast proof fn lemma_trunc_div_i64_range(a: i64, b: i64)
         else { assert(x < (-x) / y <= 0) by(nonlinear_arith) requires x < 0, y < -1; }
     }
 }
+
+// a power of a non-zero integer is non-zero (so the reciprocal taken by `0 ^ negative` is the only failing case)
+pub broadcast proof fn lemma_int_pow_nonzero(a: int, e: nat)
+    requires a != 0
+    ensures #[trigger] int_pow(a, e) != 0
+    decreases e
+{
+    if e > 0 {
+        lemma_int_pow_nonzero(a, (e - 1) as nat);
+        assert(a * int_pow(a, (e - 1) as nat) != 0) by(nonlinear_arith) requires a != 0, int_pow(a, (e - 1) as nat) != 0;
+    }
+}
 } // verus!
